@@ -1679,7 +1679,7 @@ def _alpha(x):
     return s
 
 
-ADDRESS_FORMS = ["cell", "columns", "rows"]
+ADDRESS_FORMS = ["cell", "columns", "rows", "area"]
 
 
 def _check_address(res, what, init, history):
@@ -1735,6 +1735,30 @@ def _check_address(res, what, init, history):
                     if got != exp or ys != list(range(s_, e + 1)):
                         _report(res, "ensures:row-forms-agree", f"{init} {history}: get_rows({coord!r}) [{fname}] gives {got!r} "
                                 f"at y={ys!r}; get_row(i) for i in {s_}..{e} gives {exp!r}")
+    elif what == "area":
+        # an area read in every form = the cell-by-cell reads of its positions (areas starting inside cell runs included)
+        for y in range(H):
+            for tt in range(y, min(H, y + 2)):
+                for x in range(W):
+                    for z in range(x, W):
+                        exp = [[g.value(i, j) for i in range(x, z + 1)] for j in range(y, tt + 1)]
+                        cellwise = [[t.get_value((i, j)) for i in range(x, z + 1)] for j in range(y, tt + 1)]
+                        forms = {"(x, y, z, t)": (x, y, z, tt), "'B1:E2'": f"{_alpha(x)}{y + 1}:{_alpha(z)}{tt + 1}",
+                                 "negative": (x - W, y - H, z - W, tt - H)}
+                        if cellwise != exp:
+                            _report(res, "ensures:area-forms-agree", f"{init} {history}: cell-by-cell reads of "
+                                    f"({x},{y},{z},{tt}) give {cellwise!r}, grid has {exp!r}")
+                        for fname, coord in forms.items():
+                            got = t.get_values(coord)
+                            if got != exp:
+                                _report(res, "ensures:area-forms-agree", f"{init} {history}: get_values({coord!r}) "
+                                        f"[{fname}] == {got!r}; cell by cell {exp!r}")
+                            # get_cells does not pad rows shorter than the area (get_values does): absent = None
+                            cells = [[c.get_value() for c in line] for line in t.get_cells(coord)]
+                            cells = [line + [None] * (z - x + 1 - len(line)) for line in cells]
+                            if cells != exp:
+                                _report(res, "ensures:area-forms-agree", f"{init} {history}: get_cells({coord!r}) "
+                                        f"[{fname}] holds {cells!r}; cell by cell {exp!r}")
     else:
         raise KeyError(what)
 
@@ -1762,10 +1786,10 @@ contract(
     "odfdo.table:Table[addressing]",
     sig=dict(init=Str, history=Opaque(tuple), what=Str),
     ensures=[Clause(lab, {"C19"}, lambda a, r, p: True)
-             for lab in ("cell-forms-agree", "column-forms-agree", "row-forms-agree", "no-crash")],
+             for lab in ("cell-forms-agree", "column-forms-agree", "row-forms-agree", "area-forms-agree", "no-crash")],
     gen=_gen_address, call_native=_call_address,
     bounded=dict(
-        scope="every cell / every column range / every row range of the reachable states used by the getters stand-in (7 "
+        scope="every cell / every column range / every row range / every area of one or two rows of the reachable states used by the getters stand-in (7 "
               "initial tables incl. run-length encoded rows, cells and columns, each also after one of 10 operations), read "
               "through the tuple form, the spreadsheet string form ('B3', 'B:D', '2:4'; letters computed independently), "
               "the 4-tuple form and negative (from the end) forms; all must give the content and the stamps that "
@@ -1777,7 +1801,7 @@ contract(
 
 # ===================================================================== C19 (named ranges): written address = read address
 NR_TABLE_NAMES = ["Sheet1", "Sheet10", "a b", "a.b", "a$b", "it's me", "été", "Année été 2024", "x.y's z$", "0", "Data",
-                  "Data 2024", "Feuille.1 x", "a_b", "tab.$A$1"]
+                  "Data 2024", "Feuille.1 x", "a_b", "tab.$A$1", "a'.b", "Q1 'final'.v2 x", "x''y", "a'.'b"]
 NR_AREAS = [("B2", (1, 1, 1, 1)), ("A1:C2", (0, 0, 2, 1)), ((1, 1), (1, 1, 1, 1)), ((0, 0, 2, 1), (0, 0, 2, 1)),
             ("AAA10:AAB11", (702, 9, 703, 10)), ("XFD1048576", (16383, 1048575, 16383, 1048575))]
 # three tables, each name contained in the next one: a rename must touch the ranges of that table only
@@ -1878,7 +1902,7 @@ contract(
              for lab in ("nr-constructed", "nr-reparse", "nr-document", "nr-by-table", "nr-rename", "no-crash")],
     gen=_gen_named_range, call_native=_call_named_range,
     bounded=dict(
-        scope="15 accepted table names (spaces, dots, dollars, inner apostrophes, non-ASCII, digits only, names contained "
+        scope="19 accepted table names (spaces, dots, dollars, inner apostrophes, non-ASCII, digits only, names contained "
               "in one another) x 6 areas (cell / area as string and tuples, three-letter columns, last cell XFD1048576): "
               "constructor, serialise + reparse, set on a table of a spreadsheet document, read live and after "
               "save/reopen; 4 sets of three tables whose names contain one another x each table renamed to 3 new names: "
